@@ -71,6 +71,15 @@ class FuncInfo:
         return isinstance(other, FuncInfo) and other.qualname == self.qualname
 
 
+class _Methods(dict):
+    """Method table whose missing entries are analysis errors (a vanished anchor), not KeyErrors."""
+
+    owner = "?"
+
+    def __missing__(self, key: str):
+        raise AnalysisError(f"anchor method `{self.owner}.{key}` not found")
+
+
 @dataclass
 class ClassInfo:
     qualname: str
@@ -216,6 +225,8 @@ class Program:
     def _index_class(self, mod: ModuleInfo, node: ast.ClassDef) -> None:
         q = f"{mod.name}.{node.name}"
         ci = ClassInfo(q, node.name, mod, node, base_exprs=[_dotted(b) for b in node.bases])
+        ci.methods = _Methods()
+        ci.methods.owner = q
         mod.classes[node.name] = ci
         self.classes[q] = ci
         for st in node.body:
